@@ -180,7 +180,7 @@ Definition sig_matches (secrets : list bytes) (msg got : bytes) : bool :=
 
 Definition sec : Z := 1000000000.
 
-(** HMACAuth.Verify.  [now] is the single clock reading, taken by nonceCache.admit under the
+(** HMACAuth.Verify.  [now] is the single clock reading, taken by nonceCache.cache_admit under the
     cache mutex; returns (accepted, cache'). *)
 Definition verify (cfg : hmac_cfg) (c : cache) (now : Z) (r : hreq) : bool * cache :=
   if no_secrets_configured cfg then (true, c) else
@@ -194,7 +194,7 @@ Definition verify (cfg : hmac_cfg) (c : cache) (now : Z) (r : hreq) : bool * cac
     | None => (false, c)
     | Some ts =>
       let t := ts * sec in                           (* time.Unix(ts, 0) *)
-      let '(fresh, c1) := admit nonce t (h_tol cfg) now c in
+      let '(fresh, c1) := cache_admit nonce t (h_tol cfg) now c in
       if negb fresh then (false, c1) else
       match hex_decode sig_hex with
       | None | Some [] => (false, c1)
